@@ -68,3 +68,27 @@ Definition modn_inv (a : Z) : Z := modn_pow a (Nord - 2).
 Definition extract_t2 (h1 k : Z) : option Z :=
   let t1 := modn_add h1 k in
   if t1 =? 0 then None else Some (modn_mul (modn_inv t1) k).
+
+(* ------------------------------------------------------------------ sm9_z256_rand_range
+   (since c0d02d5) draw 32 bytes up to 100 times; a draw is taken when it lies in [1, range-1];
+   an entropy failure aborts.  [draws]: the successive 256-bit draws, None = rand_bytes fails. *)
+Inductive rr_result : Type :=
+  | RR_ok (r : Z) (ndraws : nat)      (* return 1 *)
+  | RR_retry (ndraws : nat)           (* return 0 after 100 rejected draws *)
+  | RR_fail (ndraws : nat)            (* return -1 *)
+  | RR_starved.                       (* the script ran out (not a behaviour of the C code) *)
+Fixpoint rand_range_loop (accept : Z -> bool) (tries : nat) (used : nat) (draws : list (option Z)) : rr_result :=
+  match tries with
+  | O => RR_retry used
+  | S t =>
+      match draws with
+      | [] => RR_starved
+      | None :: _ => RR_fail (S used)
+      | Some d :: rest => if accept d then RR_ok d (S used) else rand_range_loop accept t (S used) rest
+      end
+  end.
+Definition rand_range (range : Z) (draws : list (option Z)) : rr_result :=
+  rand_range_loop (fun d => negb (range <=? d) && negb (d =? 0)) 100 0 draws.
+(* the rule before c0d02d5: only d < range was required, so a zero draw was used *)
+Definition rand_range_old (range : Z) (draws : list (option Z)) : rr_result :=
+  rand_range_loop (fun d => negb (range <=? d)) 100 0 draws.
